@@ -23,7 +23,8 @@ RULE = ('at states of generated histories (0-3 queued PRs incl. hotfix '
         'queued; no archived version; delete refused with queued PRs or a '
         'live stabilization branch, else archive tag on the old tip; a '
         'refusing job changes nothing; queue jobs touch only q/*; rebuild '
-        'leaves exactly the queued PRs pending, in queue order.  distinct = '
+        'leaves exactly the queued PRs pending, in queue order (order within '
+        'the main queue and within each hotfix queue: they are independent).  distinct = '
         '(job kind, request class, status, queue state)')
 ASSUMPTIONS = [
     'mock host + real git + real Bert-E; sampled states',
@@ -214,7 +215,20 @@ def check_admin(world, req, rec, acc, queue_order, real=False):
         acc.count('c20_rebuilds_checked')
         want = [i for i in queue_order if i in qb]
         got = [k[1] for k in rec['pending'] if k[0] == 'pr']
-        if qb and (st != 'JobSuccess' or got != want):
+        # hotfix queues are independent of the main queue: the order only
+        # matters within each queue
+        hot = {}
+        for n in b.refs:
+            if n.startswith('q/w/') and n.split('/')[3].count('.') == 3:
+                hot[int(n.split('/')[2])] = n.split('/')[3].rsplit('.', 1)[0]
+
+        def per_queue(ids):
+            out = {}
+            for i in ids:
+                out.setdefault(hot.get(i, 'main'), []).append(i)
+            return out
+        if qb and (st != 'JobSuccess' or sorted(got) != sorted(want) or
+                   per_queue(got) != per_queue(want)):
             probs.append((
                 'rebuild-does-not-resubmit-queued-prs-in-order',
                 'queued PRs in queue order %s; job -> %s (%s), pending PR '
